@@ -254,8 +254,18 @@ func c06Run(sc *c06Scenario) (*c06Result, error) {
 	choices := sc.choices
 	requested := false
 
+	// a panic inside the client is a result like any other error (and the end of the history)
+	safeRead := func() (msg, topic []byte, err error) {
+		defer func() {
+			if r := recover(); r != nil {
+				fmt.Fprintf(os.Stderr, "client panic: %v\n", r)
+				msg, topic, err = nil, nil, errPanic
+			}
+		}()
+		return client.ReadSlices()
+	}
 	for {
-		msg, topic, err := client.ReadSlices()
+		msg, topic, err := safeRead()
 		if err == nil {
 			res.returns = append(res.returns, c06Ret{kind: "msg", msg: append([]byte(nil), msg...), topic: append([]byte(nil), topic...)})
 			if !requested {
@@ -318,7 +328,7 @@ func c06Run(sc *c06Scenario) (*c06Result, error) {
 		if c06Class(err) == "CTimeout" {
 			// The connection must have been dropped: the next call dials
 			// again (refused by the harness) and reads nothing more.
-			_, _, err2 := client.ReadSlices()
+			_, _, err2 := safeRead()
 			if err2 == nil {
 				res.returns = append(res.returns, c06Ret{kind: "msg"})
 			} else if errors.As(err2, &big) {
@@ -344,7 +354,7 @@ func c06Run(sc *c06Scenario) (*c06Result, error) {
 	res.fresh = append([]bool(nil), conn.freshLog...)
 	client.Close()
 	for i := 0; i < 8; i++ {
-		if _, _, err := client.ReadSlices(); errors.Is(err, mqtt.ErrClosed) {
+		if _, _, err := safeRead(); errors.Is(err, mqtt.ErrClosed) {
 			break
 		}
 	}
@@ -962,6 +972,30 @@ func runC06(tier string, seed uint64, out string) error {
 			}
 			add(&c06Scenario{B: 0, pause: true, stream: st.bytes, plan: plan,
 				choices: mkChoices(st.nBig+1, 0), strat: strat}, st)
+		}
+	}
+	// the longest topics the protocol allows (the length is a 16-bit number: 65533..65535), at
+	// each level, with the default buffer size
+	for i, tl := range []int{65535, 65534, 65533} {
+		for rep := 0; rep < scale; rep++ {
+			st := &c06Stream{bytes: []byte{0x20, 2, 0, 0}, bounds: []int{4}, desc: []string{"CONNACK"}}
+			addPkt := func(p []byte, d string) {
+				st.bytes = append(st.bytes, p...)
+				st.bounds = append(st.bounds, len(st.bytes))
+				st.desc = append(st.desc, d)
+			}
+			q := (i + rep) % 3
+			addPkt(c06Publish(q, false, false, c06Topic(r, tl), 11, []byte("hello")), fmt.Sprintf("PUBLISH q%d topic %dB", q, tl))
+			if q == 2 {
+				addPkt(c06Ack(0x62, 11), "PUBREL")
+			}
+			addPkt(c06Publish(0, true, false, "after", 0, []byte("aligned")), "PUBLISH q0 7B")
+			total := len(st.bytes)
+			plan := []c06Op{{n: total}}
+			if rep%2 == 1 {
+				plan = c06PlanRandom(r, total, 30000, 1, 2, 0, 1)
+			}
+			add(&c06Scenario{B: 0, pause: true, stream: st.bytes, plan: plan, choices: mkChoices(1, 0), strat: "longest-topic"}, st)
 		}
 	}
 	if firstErr != nil {
